@@ -1,6 +1,7 @@
 CONSTANTS Vals = {1, 2}
           MaxSize = 3
           Caps = {0, 2}
+          Keeps = {FALSE}
 SPECIFICATION Spec
 CONSTRAINT SizeBound
 INVARIANTS CapInv Laws
